@@ -32,6 +32,31 @@ def quantity_value(v):
     return None, None
 
 
+def trunc_env(val, env=None):
+    """Truncating integer division / remainder on a non-constant operand (`t.0 / 1_000_000`, `t.0 % n`) on the *query time* is not a field operation:
+    IRem(a, b) is an opaque function irem(a, b) and IDiv(a, b) = (a - irem(a, b)) / b, so a lossless split (`q + r / n`) still
+    simplifies to a / n while a lossy one (`(t / 10^6) as f32 / 10^3`: a staircase in t) keeps the irem term, which is not
+    differentiable in t and does not vanish at the phase joins."""
+    env = {} if env is None else env
+
+    def walk(v):
+        if isinstance(v, Lin):
+            for a, _k in v.terms:
+                walk(a)
+        if not isinstance(v, Term):
+            return
+        for x in v.args:
+            walk(x)
+        if v.op in ("IDiv", "IRem") and len(v.args) == 2 and not all(isinstance(x, Const) for x in v.args) and repr(v) not in env:
+            a, b = (A.to_sympy(x, env) for x in v.args)
+            if A.sym("t.0") not in (a.free_symbols | b.free_symbols):
+                return   # a stored duration halved etc. (at most divisor-1 ns off, a constant of the profile): field operation as before
+            r = sp.Function("irem")(a, b)
+            env[repr(v)] = r if v.op == "IRem" else (a - r) / b
+    walk(val)
+    return env
+
+
 _NESTED = [False]
 
 
@@ -131,7 +156,7 @@ def run(chk):
                 ok = False
                 continue
             try:
-                forms[(ph, nm)] = A.to_sympy(val)
+                forms[(ph, nm)] = A.to_sympy(val, trunc_env(val))
                 raw[(ph, nm)] = (val, fn)
             except Exception as e:
                 chk.violation("C07.kinematics", "%s:nonarith:%d:%s" % (key, ph, nm), "%s in phase %d is not arithmetic: %s" % (fn["name"], ph, e))
@@ -157,7 +182,7 @@ def run(chk):
                     val, _u = quantity_value(sim.final_value(ls[0].state, ls[0].value))
                     if val is not None:
                         try:
-                            got = A.to_sympy(val).subs(tsym, tval)
+                            got = A.to_sympy(val, trunc_env(val)).subs(tsym, tval)
                             good = A.equal(got, forms[(ph, nm)].subs(tsym, tval))
                         except Exception:
                             good = False
@@ -189,7 +214,11 @@ def run(chk):
                 bad("C07.kinematics", "dv:phase%d" % ph, "phase %d: d/dt velocity = %s but the commanded acceleration is %s" % (ph, A.show(dv), A.show(forms[(ph, "a")])), f_vel)
             if not A.equal(dp, forms[(ph, "v")]):
                 bad("C07.kinematics", "dp:phase%d" % ph, "phase %d: d/dt position = %s but the velocity is %s" % (ph, A.show(dp), A.show(forms[(ph, "v")])), f_pos)
-            if sp.degree(sp.expand(forms[(ph, "v")]), tsym) > 1:
+            try:
+                affine = sp.degree(sp.expand(forms[(ph, "v")]), tsym) <= 1
+            except Exception:
+                affine = False
+            if not affine:
                 bad("C07.kinematics", "deg:phase%d" % ph, "phase %d velocity is not affine in t" % ph, f_vel)
         if t1 is not None:
             for nm, fn in (("v", f_vel), ("p", f_pos)):
